@@ -800,6 +800,8 @@ def body(R):
     hists_i = [h for h in all_hists("FEBCMI" if R.thorough else "FCMI", maxlen) if "I" in h]
     hists_i_short = [h for h in all_hists("FEBCMI", maxlen - 1) if "I" in h]
     hists_i = hists_i_short + [h for h in hists_i if h not in set(hists_i_short)]
+    # where one value is yielded per call, I is the same as C followed by M: a few short histories only
+    hists_i_single = [h for h in hists_i_short if len(h) <= 2]
     multi = [a[0] for a in ACCS if any(w in a[0] for w in ("TwoSums", "ManySums", "Split(", "Zip("))]
     R.scope("accumulators: %d configurations of Sum, DSum, Mean, VarianceMeanCount, Vectorize, Count, Histogram, "
             "SplitIntoBins, Graph, NumpyHistogram, FillCompute, FillComputeSeq, FillRequest, FillRequestSeq, "
@@ -809,16 +811,16 @@ def body(R):
             "all histories of length <= %d over {F fill (data, nested context), E fill (data, {}), B fill bare data, "
             "C compute/request, M mutate every object reachable from every context yielded so far} that end in an "
             "observation (%d histories per configuration), plus all such histories that contain I = compute/request "
-            "consumed value by value with every yielded context mutated before the generator is resumed: length <= "
-            "%d (%d histories), and for the several-values-per-call configurations also those of length %d%s (%d "
-            "histories in all); "
+            "consumed value by value with every yielded context mutated before the generator is resumed: for the "
+            "several-values-per-call configurations length <= %d, and length %d%s (%d histories in all), for the "
+            "others, where I is the same as C followed by M, length <= 2 (%d histories); "
             "identity graph of each yielded context vs every filled context and every earlier yield (of earlier "
             "calls and of the same call); twin element without mutations"
-            % (maxlen, len(hists), maxlen - 1, len(hists_i_short), maxlen,
-               "" if R.thorough else " over {F,C,M,I}", len(hists_i)), True)
+            % (maxlen, len(hists), maxlen - 1, maxlen, "" if R.thorough else " over {F,C,M,I}", len(hists_i),
+               len(hists_i_single)), True)
     for acc in ACCS:
         name = acc[0]
-        for h in hists + (hists_i if name in multi else hists_i_short):
+        for h in hists + (hists_i if name in multi else hists_i_single):
             bad = acc_history(name, h)
             R.case("F" in h or "E" in h, {"accumulator": name, "history": h})
             _report(R, bad, "replay_acc", [name, h], {"accumulator": name, "history": h})
@@ -886,9 +888,9 @@ def body(R):
     # stopping branch stands at every position, K and bufsize range over "first / middle / last value of a block,
     # first / later block", the flow ends with the stopping value or goes on for another block.
     if R.thorough:
-        st_ks, st_bufs = list(range(6)), [1, 2, 3, 4, None]
-        stoppers = (stop_kinds(("FC", "FR"), ("mut", "count"), st_ks, "store")
-                    + stop_kinds(("FC", "FR"), ("var",), st_ks, "sum"))
+        st_ks, st_bufs = list(range(5)), [1, 2, 3, 4, None]
+        stoppers = (stop_kinds(("FC", "FR"), ("mut",), st_ks, "store") + stop_kinds(("FC", "FR"), ("var",), st_ks, "sum")
+                    + stop_kinds(("FC", "FR"), ("count",), st_ks[:3], "store"))
         victims = ["S:mut", "FC:mut;store", "FR:mut;store", "S:var", "FC:var;lensum", "SRC:count2"]
         victims4 = victims[:2]
     else:
@@ -909,20 +911,21 @@ def body(R):
     for st in stoppers:
         for v in victims:
             stop_lists += [(st, v), (v, st)]
-        for v1, v2 in itertools.product(victims, repeat=2):
+        for v1, v2 in itertools.product(victims, victims[:3]):
             stop_lists += [(st, v1, v2), (v1, st, v2)]
         for v in victims:
             stop_lists.append((v, v, st))
-        for vs in itertools.product(victims4, repeat=3):
+        for v in victims4:
             for pos in range(4):
-                stop_lists.append(vs[:pos] + (st,) + vs[pos:])
+                stop_lists.append((v,) * pos + (st,) + (v,) * (3 - pos))
     R.scope("Split.run, copy_buf=True, a branch stops (LenaStopFill) after it has changed the values in place",
             "%d branch lists: one stopping branch <FillComputeSeq|FillRequestSeq>(probe, in-place mutator (%s), "
             "Slice(K), accumulator), K in %r, at every position of lists of length 2 and 3 (other branches: all "
-            "choices from %r; stopping branch last: two equal ones) and of length 4 (others from %r); bufsize in %r "
+            "choices from %r, the last one from the first three; stopping branch last: two equal ones) and of length "
+            "4 (others: three equal ones from %r); bufsize in %r "
             "(the stop falls on the first / a middle / the last value of a block, in the first or a later block); flow "
             "lengths %s; every branch vs the branch alone, vs the pristine flow, identity graphs disjoint"
-            % (len(stop_lists), "user mutator, Variable, Count.fill_into" if R.thorough else "user mutator", st_ks,
+            % (len(stop_lists), "user mutator, Variable, Count.fill_into for K <= 2" if R.thorough else "user mutator", st_ks,
                victims, victims4, st_bufs,
                "K+1 (the stopping value is the last one), K+2, K+1+bufsize (K+3 for None)" if R.thorough else
                "K+1 (the stopping value is the last one), K+1+bufsize (K+3 for None)"), True)
@@ -936,12 +939,12 @@ def body(R):
     for t1, t2 in (itertools.product(("FC", "FR"), repeat=2) if R.thorough else [("FC", "FC"), ("FR", "FC")]):
         for k1, k2 in itertools.product(two_ks, repeat=2):
             a, b_ = stop_kinds((t1,), ("mut",), [k1])[0], stop_kinds((t2,), ("mut",), [k2])[0]
-            for v in victims[:2]:
+            for v in victims[1:3] if R.thorough else victims[1:2]:
                 two_lists += [(a, b_, v, v), (a, v, b_, v)]
     R.scope("Split.run, copy_buf=True, two branches stop after they have changed the values in place",
             "%d branch lists [stop K1, stop K2, v, v] and [stop K1, v, stop K2, v], K1, K2 in %r (both stop on the same "
             "value, in the same block, in different blocks), v in %r; bufsize in %r; flow lengths max(K)+1, "
-            "max(K)+1+bufsize" % (len(two_lists), two_ks, victims[:2], st_bufs), True)
+            "max(K)+1+bufsize" % (len(two_lists), two_ks, victims[1:3] if R.thorough else victims[1:2], st_bufs), True)
     for kinds in two_lists:
         k = max(stop_k(x) for x in kinds if _STOP_RE.match(x))
         for b in st_bufs:
